@@ -42,7 +42,9 @@ Definition check_req (k : cst) (kd : option kind) (b : reqobs) : option cst :=
     | Some KStart =>
         (* a successful START writes into a newly created numbered directory *)
         let d := (pat_base (o_rs b), pat_dir (o_rs b)) in
-        if active (o_rs b) && (1 <=? pat_base (o_rs b)) && (0 <=? pat_dir (o_rs b)) &&
+        (* pat_dir >= 0: the reported pattern names a numbered directory (the harness reports -1 for an empty
+           and -2 for a malformed pattern) *)
+        if active (o_rs b) && (0 <=? pat_dir (o_rs b)) &&
            negb (is_used (k_used k) d) && o_dirnew b
         then Some {| k_rs := o_rs b; k_writers := o_writers b; k_used := d :: k_used k |}
         else None
